@@ -169,6 +169,11 @@ func init() {
 			rs := []rune(s)
 			return []any{cnt, last, len(rs), utf8.ValidString(s), len(string(rs))}
 		},
+		// 37: fmt.Sprint with several symbolic operands (a blank between two operands when neither is a string)
+		func(x int64, s string, bs []byte) any {
+			a, b := x%10, x%7
+			return []any{fmt.Sprint(a, b) == fmt.Sprintf("%d %d", a, b), fmt.Sprint(a, s, b) == fmt.Sprintf("%d%s%d", a, s, b), len(fmt.Sprint(a, b)) == 3}
+		},
 	)
 }
 
